@@ -153,7 +153,7 @@ pub fn check(tier: Tier) -> i32 {
     let budget = Budget::new(wall_cap(tier));
     rep.mandatory_scopes = 1;
     // ---- pool ----
-    let n = if tier == Tier::Quick { 5 } else { 6 };
+    let n = if tier == Tier::Quick { 6 } else { 7 };
     let mut classes: BTreeMap<u64, String> = BTreeMap::new();
     for a in ["blk", "flow", "prop", "doc"] {
         let sp = sigma(a, n);
